@@ -163,6 +163,11 @@ func c12Op(g *gen.G, typ byte) drv.Op {
 				w.Props = nil
 				return drv.Op{Kind: "rewill", Will: w}
 			}
+			if t.Bool(1, 4) {
+				o := userprops()
+				o.Kind, o.Flag = "editwill", false
+				return o
+			}
 			return drv.Op{Kind: "will", Will: c12Will(g)}
 		case 6:
 			return userprops()
